@@ -70,6 +70,9 @@ func (p *Core) genSend() []sim.Op {
 	ri := mock[w.Intn(len(mock))]
 	r := p.Routes[ri]
 	d := w.Intn(2)
+	if r.OneWay {
+		d = 0
+	}
 	dst := r.Chain[1-d]
 	op := sim.Op{K: "send", P: ri, X: int64(d), T: w.Tag()}
 	n := 1
@@ -95,6 +98,12 @@ func (p *Core) genSend() []sim.Op {
 		case w.Intn(100) < gb: // guard boundaries
 			srcNow := p.chainTime(r.Chain[d].Idx).Add(time.Second)
 			b := []int64{srcNow.Unix(), srcNow.Unix() + 1, srcNow.Unix() - 1, srcNow.Unix() + 86400, srcNow.Unix() + 86401, srcNow.Unix() + 86399, 0}
+			// and around the light client's latest consensus timestamp (whole seconds): a timeout
+			// equal to it has already passed on the counterparty
+			if _, lts, err := r.Chain[d].ClientLatestAt(r.Client[d], srcNow); err == nil {
+				ls := time.Unix(0, int64(lts)).Unix()
+				b = append(b, ls, ls, ls+1, ls-1)
+			}
 			op.M = b[w.Intn(len(b))]
 			w.Stats.Probe("v2_send_guard_boundary_value")
 		case tight:
@@ -238,7 +247,13 @@ func (p *Core) pickInflight() *PktState {
 func (p *Core) Gen(w *sim.World) []sim.Op {
 	o := p.Opt
 	for try := 0; try < 8; try++ {
-		switch w.Pick(o.WSend, o.WRelay, o.WBlock, o.WDup, o.WEarlyTmo, o.WClose, o.WMut, o.WRestart, o.WUpdate, o.WAsyncAck, 2, o.WLocalVerify, o.WDelayProbe, o.WXfer, o.WDonate, o.WAttack, o.WRateAdm, o.WGrant) {
+		switch w.Pick(o.WSend, o.WRelay, o.WBlock, o.WDup, o.WEarlyTmo, o.WClose, o.WMut, o.WRestart, o.WUpdate, o.WAsyncAck, 2+o.WSkew, o.WLocalVerify, o.WDelayProbe, o.WXfer, o.WDonate, o.WAttack, o.WRateAdm, o.WGrant, o.WReReg) {
+		case 18:
+			for i, r := range p.Routes {
+				if r.Kind == "v2" || r.Kind == "t2" {
+					return []sim.Op{{K: "rereg", P: i, X: int64(w.Intn(2)), N: int64(w.Pick(70, 30))}}
+				}
+			}
 		case 13:
 			if ops := p.genXfer(); ops != nil {
 				return ops
